@@ -695,6 +695,7 @@ func TestC05_CONC(t *testing.T) {
 		svc.BasicDelay.Store(int64(c.DelayMs) * int64(time.Millisecond))
 		defer svc.BasicDelay.Store(0)
 		g := theGrid()
+		g.marks()
 		errs := make(chan string, len(c.Users)+len(c.Wrong))
 		var wg sync.WaitGroup
 		start := make(chan struct{})
@@ -729,6 +730,7 @@ func TestC05_CONC(t *testing.T) {
 		}
 		close(start)
 		wg.Wait()
+		g.marks() // take the connections of this case out of the listeners' accept queues (nobody else does)
 		select {
 		case e := <-errs:
 			return viol("c05/user-binding/concurrent", "%s (%d correct and %d wrong logins at once, backend delay %d ms)", e, len(c.Users), len(c.Wrong), c.DelayMs)
